@@ -206,11 +206,24 @@ class Check:
         for l in lines:
             assert '\n' not in l
         inp = '\n'.join(lines) + '\n'
+        # own process group so that a timeout kills `lake` AND its `lean` child (no orphaned interpreters)
+        proc = subprocess.Popen(['lake', 'env', 'lean', '--run', os.path.join('Drivers', driver + '.lean')], cwd=LEAN, stdin=subprocess.PIPE,
+                                stdout=subprocess.PIPE, stderr=subprocess.PIPE, text=True, start_new_session=True)
         try:
-            p = subprocess.run(['lake', 'env', 'lean', '--run', os.path.join('Drivers', driver + '.lean')], cwd=LEAN, input=inp,
-                               stdout=subprocess.PIPE, stderr=subprocess.PIPE, text=True, timeout=timeout)
+            out_, err_ = proc.communicate(inp, timeout=timeout)
         except subprocess.TimeoutExpired:
+            import signal
+            try: os.killpg(proc.pid, signal.SIGKILL)
+            except Exception: pass
+            proc.kill(); proc.wait()
             raise Infra('lean driver timed out')
+        except BaseException:
+            import signal
+            try: os.killpg(proc.pid, signal.SIGKILL)
+            except Exception: pass
+            raise
+        class _P: pass
+        p = _P(); p.returncode, p.stdout, p.stderr = proc.returncode, out_, err_
         if p.returncode != 0:
             raise Infra('lean driver %s failed (rc %d):\n%s\n%s' % (driver, p.returncode, p.stdout[-1500:], p.stderr[-1500:]))
         out = p.stdout.split('\n')
